@@ -88,14 +88,22 @@ func newHistRun(r *ev.Run, w *world, cfg histCfg) *histRun {
 		h.labels = append(h.labels, fmt.Sprintf("open(T%d)", t), fmt.Sprintf("write(T%d)", t), fmt.Sprintf("close(T%d)", t))
 	}
 	h.labels = append(h.labels, "write(U)", "close(U)")
+	// an open for T0's file id with a name that must be refused (it climbs out of the loot
+	// folder), sent while T0 is running: nothing may change, T0's later chunks still count
+	h.labels = append(h.labels, "refused-open(id of T0)+write(T0)")
 	return h
 }
+
+const escapingName = `..\..\..\..\..\..\..\c07-escape`
 
 func (h *histRun) nOps() int { return len(h.labels) }
 
 // decode an operation index
 func (h *histRun) decode(op int) (t int, kind string) {
 	u := len(h.xfers) - 1
+	if op == 3*u+2 {
+		return 0, "refused-open"
+	}
 	if op >= 3*u {
 		return u, []string{"write", "close"}[op-3*u]
 	}
@@ -151,6 +159,39 @@ func (h *histRun) step(hist []int) explore.StepResult {
 		var sub demonwire.Sub
 		var tr string
 		chunk := ""
+		if kind == "refused-open" {
+			// compound operation: the refused open, then one more chunk of T0 (judged as a write)
+			var bad demonwire.Sub
+			if h.cfg.open == "fs" {
+				bad = fsOpen(mt.req, x.id, 64, escapingName)
+			} else {
+				bad = bofOpen(mt.req, x.id, 64, escapingName)
+			}
+			last := i == len(hist)-1
+			var b0 tree
+			if last {
+				b0 = w.snap()
+			}
+			_, eff0 := w.post(x.ag, bad)
+			if last {
+				a0 := w.snap()
+				d0 := diffTrees(b0, a0)
+				at := map[string]any{"failing_step": i, "operation": h.labels[op]}
+				if b := contain(d0, w.names[x.ag], known); b != nil {
+					at["breach"] = b
+					return fail("escape/history/"+b.Zone, fmt.Sprintf("a refused open of agent %s %s %s", w.names[x.ag], b.Kind, b.Path), at)
+				}
+				if accepted, _ := verdictOf(eff0); accepted {
+					return fail("content/escaping-open-accepted", "an open whose name leaves the loot folder was accepted", at)
+				}
+				if q := withoutLogs(d0); !q.empty() {
+					at["delta"] = q
+					return fail("stray-write/refused-open", "a refused open changed files", at)
+				}
+				h.r.Outcome("hist/refused-open-of-a-running-id")
+			}
+			kind = "write"
+		}
 		switch kind {
 		case "open":
 			tr = h.cfg.open
@@ -350,9 +391,12 @@ func (h *histRun) step(hist []int) explore.StepResult {
 		}
 		h.r.Sample(map[string]any{"history": h.describe(hist), "transports": h.cfg.name, "files_afterwards": files})
 	}
-	en := make([]int, h.nOps())
-	for i := range en {
-		en[i] = i
+	var en []int
+	for i := 0; i < h.nOps(); i++ {
+		if _, k := h.decode(i); k == "refused-open" && !m[0].open {
+			continue // only meaningful while T0 is running
+		}
+		en = append(en, i)
 	}
 	return explore.StepResult{Key: b.String(), Enabled: en, OK: true}
 }
